@@ -1,9 +1,13 @@
 """C04 -- propagation and search terminate on every finite problem (structural clauses)."""
-from ..rules import engine, search
+from ..rules import engine, search, variants, branching
 
-EXPLANATION = "tmp"
+EXPLANATION = (
+    "Static analysis of the progress measures: no event is announced by the write-back without a strict shrink of a stored bound (R-EVENTS-EXACT, R-WRITEBACK-MONO), so a propagator is re-queued only after progress; each registered variable heuristic answers the 'nothing to branch on' value only when no decision domain is open (first-iteration-state analysis + Houdini order invariants); every `while` loop of jitted code gets a derived termination argument (guard quantity strictly decreasing, monotone pointer chase, guarded counter sum) or is listed as undecided with its reason; every branch of every value heuristic strictly shrinks the domain. Not termination of the Hall-interval pointer chases (listed)."
+)
 
 
 def check(ctx, prog):
     engine.rule_writeback(ctx, prog, want=("R-EVENTS-EXACT", "R-WRITEBACK-MONO"))
     search.rule_sentinel(ctx, prog)
+    variants.rule_loop_variants(ctx, prog)
+    branching.check_value_heuristics(ctx, prog)
